@@ -443,7 +443,7 @@ tre_parse_bracket(tre_parse_ctx_t *ctx, tre_ast_node_t **result)
 			if (min < curr_max)
 			{
 				/* Overlap. */
-				curr_max = MAX(max + 1, curr_max);
+				curr_min = curr_max = MAX(max + 1, curr_max);
 				DPRINT(("overlap, curr_max = %d\n", curr_max));
 				l = NULL;
 			}
